@@ -120,6 +120,8 @@ class Calendar:
         self.ROUGH_DAYS_IN_YEAR = self.DAYS_IN_YEAR
         self.DAYS_IN_YEAR_LEAP = sum(self.DAYS_IN_MONTHS_LEAP)
         self.MAX_DAYS_IN_MONTH = max(self.DAYS_IN_MONTHS)
+        self.MAX_WEEKS_IN_YEAR = (
+            self.DAYS_IN_YEAR_LEAP // self.DAYS_IN_WEEK + 1)
         self.HOURS_IN_YEAR = self.DAYS_IN_YEAR * self.HOURS_IN_DAY
         self.MINUTES_IN_YEAR = self.DAYS_IN_YEAR * self.MINUTES_IN_DAY
         self.SECONDS_IN_YEAR = self.DAYS_IN_YEAR * self.SECONDS_IN_DAY
